@@ -408,11 +408,11 @@ def model(ctx):
     out_file = os.path.join(ctx.scratch, 'c03_universe.json')
     cfg = 'MC_C03_thorough.cfg' if ctx.tier == 'thorough' else 'MC_C03.cfg'
     ctx.model_must_hold('MC_C03', cfg, env={'OUT_FILE': out_file}, timeout=3000, workers=8, label='design consistent (in-claim pairs)')
-    ctx.model_must_hold('MC_C03', 'MC_C03_quadp.cfg', env={'OUT_FILE': ''}, timeout=600, workers=2,
+    ctx.model_must_hold('MC_C03', 'MC_C03_quadp.cfg', env={'OUT_FILE': ''}, timeout=3000, workers=2,
                         label='named deviation QuadPFacetModesUnoriented')
     # regression model (sensitivity of the design layer): the reference-tangent table of ElementQuadN1 before
     # fix f058432 must be refuted by TLC; the current table is part of the main configuration
-    old = ctx.tlc_model('MC_C03', 'MC_C03_quadn1_prerepair.cfg', env={'OUT_FILE': ''}, timeout=600, workers=2,
+    old = ctx.tlc_model('MC_C03', 'MC_C03_quadn1_prerepair.cfg', env={'OUT_FILE': ''}, timeout=3000, workers=2,
                         label='regression model: ElementQuadN1 reference tangents before fix f058432')
     ctx.notes['pre_repair_quadn1_tangent_table_refuted_by_tlc'] = bool(old['violated'])
     if not old['violated']:
